@@ -206,16 +206,37 @@ def run(R):
                [[FieldOptGuard("farthest_acceptable_distance", ("None",), "no previous bound"), CmpGuard(newd, oldd, "Lt", "new < old", close=False)]],
                descr="the full-node bound is only ever set or shrunk")
         oks = True
-        for c in F.item(RF + "::set_farthest_on_full"):
-            if c.kind != "closure":
+        from rules import closure_truth_table, closures_passed, _captured_seeds
+        new_parent = newd(sf)
+        nret = 0
+        for blk_ in sf.blocks:
+            t_ = blk_["term"]
+            if t_["k"] != "call" or blk_["cleanup"] or not (t_["ncallee"] or "").endswith("::retain"):
                 continue
-            prep(c)
-            cs = [s for s in compare_sites(c)]
-            if cs:
-                d = Taint(c).closure(call_results(["ant_protocol::NetworkAddress::distance"])(c))
-                if not any((op_local(s["a"]) in d and s["op"] == "Le") or (op_local(s["b"]) in d and s["op"] == "Ge") for s in cs):
+            for c in closures_passed(F, sf, t_):
+                prep(c)
+                nret += 1
+                D = Taint(c).closure(call_results(["ant_protocol::NetworkAddress::distance"])(c))
+                B = Taint(c, through="all").closure(_captured_seeds(sf, c, new_parent)) - D
+
+                def classify(b_, cs, D=D, B=B):
+                    la, lb = op_local(cs["a"]), op_local(cs["b"])
+                    if la in D and lb in B:
+                        rel = cs["op"]
+                    elif lb in D and la in B:
+                        rel = {"Le": "Ge", "Ge": "Le", "Lt": "Gt", "Gt": "Lt"}.get(cs["op"], cs["op"])
+                    else:
+                        return None         # a comparison that is not distance-vs-new-bound
+                    return {"Le": ("W", True), "Gt": ("W", False), "Lt": ("S", True), "Ge": ("S", False)}.get(rel)
+                tt = closure_truth_table(c, classify)
+                good = tt is not None and tt[0] == ["W"] and all(v == dict(k)["W"] for k, v in tt[1].items())
+                if not good:
                     oks = False
-                    R.viol("C08.shrink.retain", "retain-polarity", "set_farthest_on_full keeps entries by something other than distance <= new bound", c, c.lines[0])
+                    R.viol("C08.shrink.retain", "retain-polarity", "set_farthest_on_full keeps entries by something other than distance(self, key) <= the new bound "
+                           "(%s)" % ("closure not a function of that comparison" if tt is None else "kept iff %s" % sorted((sorted(dict(k).items()), v) for k, v in tt[1].items())), c, c.lines[0])
+        if nret < 2:
+            oks = False
+            R.viol("C08.shrink.retain", "retain-missing", "set_farthest_on_full does not prune both the queue and the in-flight set with retain", sf, sf.lines[0])
         R.inst("C08.shrink.retain", "K10 polarity", "queued / in-flight entries kept iff distance <= new bound", 2, oks)
 
     # (4) closest first
